@@ -414,7 +414,7 @@ func checkTaskExecutor(r *Reporter, p *Prog) {
 	} else {
 		bad := false
 		for _, e := range exists {
-			if w, found := f.reach(Point{e.From.Succs[e.Succ], 0}, &searchOpts{AvoidNode: isCancel}, func(pt Point, atExit bool) bool { return !atExit && pt == sched[0] }); found {
+			if w, found := f.reach(Point{e.From.Succs[e.Succ], 0}, &searchOpts{AvoidNode: isCancel}, func(pt Point, atExit bool) bool { return !atExit && f.At(pt, sched[0]) }); found {
 				bad = true
 				r.Fail("taskexec/reschedule-cancels", key, f.PosOf(sched[0]), "a pending task for the identifier is not cancelled before the new one is scheduled: two tasks per identifier", w...)
 			}
